@@ -229,5 +229,5 @@ func checkEditCase(c editCase, rec *Rec) error {
 func init() {
 	RegisterRapid("C05_edit_history",
 		"rapid: initial graph from the mixed generator (n <= 7), optionally with garbage-filled spare capacity behind every slice; then 1..30 (thorough 120) ops over a pool of up to 6 graphs: AddVertex(neighbours in any order), RemoveVertex(any v), AddEdge/RemoveEdge(i,j incl. i=j, present/absent), Copy, InducedSubgraph(any injective V). Each slot holds a DenseGraph, a SparseGraph and an adjacency-matrix model; after EVERY op EVERY slot is compared (N, M, IsEdge both ways, ascending Neighbours, Degrees), so shared state between a copy/induced subgraph and its source shows up when either is edited. Non-trivial: an edit after removing a non-last vertex of degree >= 1, or an edit of a graph that has been copied / taken an induced subgraph of (or of such a result).",
-		Budget{Checks: 2500, Shards: 1}, Budget{Checks: 12000, Shards: 8}, genEditCase, checkEditCase)
+		Budget{Checks: 2500, Shards: 1}, Budget{Checks: 100000, Shards: 16}, genEditCase, checkEditCase)
 }
